@@ -329,6 +329,7 @@ type XStyle struct {
 	Quotes           int  // 0 mixed, 1 double, 2 single
 	Shuffle          bool // property order
 	TagSpace         bool // white space inside tags before '>' (start tags without attributes, end tags)
+	EqSpace          bool // white space around the '=' of attributes (XML: Eq ::= S? '=' S?); set by the caller from a side lane
 	Seed             uint64
 }
 
@@ -458,7 +459,11 @@ func (r *XRecord) Serialise(l *core.Lane, st XStyle) []byte {
 	for _, p := range attrs {
 		unknownAttr()
 		q = quote()
-		sb.WriteString(ws(1) + p.NS + ":" + p.Name + "=" + q + p.Val + q)
+		eq := "="
+		if st.EqSpace && f.Intn(2) == 0 {
+			eq = []string{"", " ", "\t", "  "}[f.Intn(4)] + "=" + []string{"", " ", "\n", "  "}[f.Intn(4)]
+		}
+		sb.WriteString(ws(1) + p.NS + ":" + p.Name + eq + q + p.Val + q)
 	}
 	unknownAttr()
 	if len(elems) == 0 && f.Intn(2) == 0 {
